@@ -673,53 +673,56 @@ theorem takeWhile_digits (s : Str) (h : ∀ c ∈ s, (digitVal? c).isSome = true
 
 /-- `float(str(i))` for a Python int -/
 theorem parseDec_intStr (i : Int) : parseDec? (intStr i) = some (i, 0) := by
-  unfold parseDec?
-  rw [strip_numStr _ (intStr_ne_nil i) (intStr_numChar i)]
+  rw [parseDec_noexp _ (fun c hc => numChar_noexp (intStr_numChar i c hc)), strip_numStr _ (intStr_ne_nil i) (intStr_numChar i)]
   unfold intStr
-  have hd := natStr_digits i.natAbs
-  have hne := natStr_ne_nil i.natAbs
-  obtain ⟨c0, cs0, hcs⟩ : ∃ c0 cs0, natStr i.natAbs = c0 :: cs0 := by
-    cases h : natStr i.natAbs with
-    | nil => exact absurd h hne
-    | cons a b => exact ⟨a, b, rfl⟩
-  have hc0 := digit_of_digitVal (hd c0 (by rw [hcs]; simp))
-  have htw := takeWhile_digits _ hd
+  have h := parseMant_nodot (decide (i < 0)) (natStr i.natAbs) i.natAbs (natStr_digits _) (natStr_ne_nil _)
+    (by rw [parseNatAux_natStr]; simp)
   by_cases hi : i < 0
-  · simp only [hi, ↓reduceIte, List.head?_cons, beq_self_eq_true, Bool.true_or, List.drop_succ_cons, List.drop_zero]
-    rw [htw.1, htw.2]
-    simp only [List.drop_nil, List.isEmpty_nil, Bool.and_true, List.length_nil, Nat.pow_zero, Nat.mul_one]
-    have : (natStr i.natAbs).isEmpty = false := by rw [hcs]; rfl
-    simp only [this, Bool.false_eq_true, ↓reduceIte, parseNatAux_natStr, parseNatAux]
-    simp
+  · simp only [hi, ↓reduceIte, decide_true] at h ⊢
+    rw [show '-' :: natStr i.natAbs = ['-'] ++ natStr i.natAbs from rfl, h]
+    congr 2
     omega
-  · have h1 : (natStr i.natAbs).head? = some c0 := by rw [hcs]; rfl
-    have e1 : (some c0 == some '-') = false := by simp [hc0.2.2.1]
-    have e2 : (some c0 == some '+') = false := by simp [hc0.2.2.2.1]
-    simp only [hi, ↓reduceIte, h1, e1, e2, Bool.or_self, Bool.false_eq_true]
-    rw [htw.1, htw.2]
-    simp only [List.drop_nil, List.isEmpty_nil, Bool.and_true, List.length_nil, Nat.pow_zero, Nat.mul_one]
-    have : (natStr i.natAbs).isEmpty = false := by rw [hcs]; rfl
-    simp only [this, Bool.false_eq_true, ↓reduceIte, parseNatAux_natStr, parseNatAux]
-    simp
+  · simp only [hi, ↓reduceIte, decide_false, Bool.false_eq_true, List.nil_append] at h ⊢
+    rw [h]
+    congr 2
     omega
 
-theorem afOK_dec (sep : Char) (hsep : numChar sep = false) (d : Nat) (n : Int) : AFOK sep (.dec d n) :=
-  numField_ok _ hsep _ (reprDec_ne_nil d n) (reprDec_numChar d n)
+/-- a float value is one field of the line when the separator is not a character of `str(float)`: a number character, the
+exponent marker `e` or the `+` of a positive exponent -/
+theorem afOK_dec (sep : Char) (hsep : numChar sep = false) (he : sep ≠ 'e') (hp : sep ≠ '+') (d : Nat) (n : Int) :
+    AFOK sep (.dec d n) := by
+  have hch : ∀ c ∈ reprFloat 'e' d (SNum.ofInt n), isWs c = false ∧ c ≠ '#' ∧ c ≠ '\n' ∧ c ≠ sep := by
+    intro c hc
+    rcases reprFloat_chars 'e' d (SNum.ofInt n) c hc with h | h | h
+    · have := numChar_not_ws h
+      exact ⟨this.1, this.2.1, this.2.2.1, fun e => by rw [e, hsep] at h; exact absurd h (by decide)⟩
+    · subst h; exact ⟨by decide, by decide, by decide, Ne.symm he⟩
+    · subst h; exact ⟨by decide, by decide, by decide, Ne.symm hp⟩
+  refine ⟨⟨reprFloat_ne_nil _ _ _, ?_, ?_⟩, ?_, ?_⟩
+  · intro c hc
+    have := hch c (List.mem_of_mem_head? hc)
+    exact ⟨this.1, this.2.1⟩
+  · intro c hc
+    exact (hch c (List.mem_of_getLast? hc)).1
+  · intro hm
+    exact (hch _ hm).2.2.2 rfl
+  · intro hm
+    exact (hch _ hm).2.2.1 rfl
 
 /-- **the values read back**, for a column whose name does not end in `&`: an `int` comes back as the float of the same
-value, a float on the decimal lattice as the decimal `str()` printed (value `n / 10^d`, see `repr_value`), `nan` and
+value, a float of any magnitude as the decimal `str()` printed, positional or in exponent notation (value `n / 10^d`, see `repr_value`), `nan` and
 `±inf` as themselves, a string that `float()` refuses and that holds no double quote as itself. In a column whose name
 ends in `&` every value comes back as its text. -/
 theorem expAF_values (name : Str) (hamp : name.getLast? ≠ some '&') :
     (∀ i, expAF name (.int i) = .num (i, 0)) ∧
-    (∀ d n, expAF name (.dec d n) = .num (reprVal d n)) ∧
+    (∀ d n, expAF name (.dec d n) = .num (reprValF d (SNum.ofInt n))) ∧
     expAF name .nan = .nan ∧ (∀ b, expAF name (.inf b) = .inf b) ∧
     (∀ s, floatLit? s = none → '"' ∉ s → expAF name (.str s) = .str s) := by
   refine ⟨?_, ?_, ?_, ?_, ?_⟩
   · intro i
     simp [expAF, hamp, afText, floatLit?, parseDec_intStr]
   · intro d n
-    simp [expAF, hamp, afText, floatLit?, parseDec_reprDec]
+    simp [expAF, hamp, afText, floatLit?, parseDec_reprFloat 'e' (by decide)]
   · simp only [expAF, hamp, ↓reduceIte, afText]
     decide +kernel
   · intro b
